@@ -13,8 +13,10 @@ def family(pid):
     import p_history
     if hasattr(p_history, pid):
         return getattr(p_history, pid)()
-    if pid in ('C19', 'C11', 'C05'):
+    if pid in ('C19', 'C11', 'C05', 'C01'):
         import p_query
+        if pid == 'C01':
+            return p_history.with_histories(p_query.C01, 0.15, p_history.lazy_history)()
         if pid == 'C19':
             return p_history.with_histories(p_query.C19, 0.25, p_history.falsy_shared_history)()
         if pid == 'C05':
